@@ -32,7 +32,7 @@ LEVEL_NOTE = (
 TECHNIQUE = "deterministic simulation: stop-cause injection (budgets, callback stop, target) x restart histories, truth-of-report oracle"
 DESIGN_REF = "DESIGN.md 4.2"
 BUDGET = {
-    "quick": {"plans": 6000, "wall": 90, "chunk": 8},
+    "quick": {"plans": 8000, "wall": 90, "chunk": 8},
     "thorough": {"plans": 60000, "wall": 900, "chunk": 16},
 }
 RULE = (
